@@ -212,7 +212,7 @@ func corruptHarness(rc *RunCtx) {
 		corruptSubscriber(rc, s, entry, proto)
 		return
 	}
-	env := &e2eEnv{rc: rc, s: s, proto: proto}
+	env := &e2eEnv{rc: rc, s: s, proto: proto, garbageExpected: true}
 	switch {
 	case strings.HasPrefix(entry, "adapter"), strings.HasPrefix(entry, "simple"):
 		env.kind = "adapter"
